@@ -94,6 +94,20 @@ def printer_rules(ctx):
                         bodies.append(n["body"])
                     elif n.get("k") == "mcall" and n["m"] in ("for_each", "try_for_each") and about_b(n["recv"]):
                         bodies += [a_["body"] for a_ in n["args"] if a_.get("k") == "closure"]
+                    elif n.get("k") == "call" and any(about_b(a_) for a_ in n["args"] if a_.get("k") != "closure") and any(a_.get("k") == "closure" for a_ in n["args"]):
+                        # the list and a per-item closure are handed to a private helper that walks the list and calls the closure
+                        # for every item (`comma_separated_strigify_write(fields, stringifier, |field, s| ..)`)
+                        hs_ = [h_ for h_ in tc.fns if h_.name == sir.call_name(n) and h_.body and not h_.base and len(h_.params) == len(n["args"])]
+                        if len(hs_) == 1:
+                            hp_ = hs_[0].param_names()
+                            li_ = [i_ for i_, a_ in enumerate(n["args"]) if a_.get("k") != "closure" and about_b(a_)]
+                            ci_ = [i_ for i_, a_ in enumerate(n["args"]) if a_.get("k") == "closure"]
+                            if li_ and ci_ and hp_[li_[0]] and hp_[ci_[0]]:
+                                dl_ = G.derived_names(hs_[0].body, hp_[li_[0]]) | {hp_[li_[0]]}
+                                walks_ = any(l_.get("k") in ("for", "while") and any(x_.get("k") == "path" and len(x_["segs"]) == 1 and x_["segs"][0] in dl_ for x_ in sir.walk(l_["e"] if l_.get("k") == "for" else l_["cond"]))
+                                             and any(c_.get("k") == "call" and sir.call_name(c_) == hp_[ci_[0]] for c_ in sir.walk(l_["body"])) for l_ in sir.walk(hs_[0].body))
+                                if walks_:
+                                    bodies.append(n["args"][ci_[0]]["body"])
                 okl = any(x.get("k") == "call" and pt._level_arg(x["args"]) for bd in bodies for x in sir.walk(bd))
                 if not okl:
                     missing.append(fname)
